@@ -7,6 +7,7 @@ import (
 	"encoding/hex"
 	"encoding/json"
 	"fmt"
+	"github.com/dcaiafa/lox/verif/internal/root"
 	"os"
 	"os/exec"
 	"path/filepath"
@@ -157,7 +158,7 @@ type Finding struct {
 }
 
 func LoadFindings() []Finding {
-	b, err := os.ReadFile("/verif/known_findings.json")
+	b, err := os.ReadFile(root.Path("known_findings.json"))
 	if err != nil {
 		return nil
 	}
@@ -378,7 +379,7 @@ func scratchRoot() string {
 func WriteReplay(v *Violation) string {
 	b, _ := json.MarshalIndent(v, "", " ")
 	h := sha256.Sum256(b)
-	dir := filepath.Join("/verif/replays", v.Property)
+	dir := filepath.Join(root.Path("replays"), v.Property)
 	os.MkdirAll(dir, 0o777)
 	path := filepath.Join(dir, hex.EncodeToString(h[:6])+".json")
 	os.WriteFile(path, b, 0o666)
@@ -477,6 +478,6 @@ func WriteEvidence(ck *Check, tier string, seed int64, st *Stats, wall time.Dura
 		"violations":  nviol,
 	}
 	b, _ := json.MarshalIndent(ev, "", " ")
-	os.MkdirAll("/verif/evidence", 0o777)
-	os.WriteFile(filepath.Join("/verif/evidence", ck.ID+".json"), b, 0o666)
+	os.MkdirAll(root.Path("evidence"), 0o777)
+	os.WriteFile(filepath.Join(root.Path("evidence"), ck.ID+".json"), b, 0o666)
 }
